@@ -16,6 +16,10 @@ for d in sorted((V / "seeded").iterdir(), key=lambda p: (p.name.split("-")[0], p
     summ = re.sub(r"\s+", " ", (m.get("summary") or "")).strip()
     summ = summ[:150] + ("…" if len(summ) > 150 else "")
     status = "; ".join(caught) if caught else ("**not caught** by " + ", ".join(missed) if missed else "not run")
+    if caught and missed:
+        status += " (its own property's check " + ", ".join(missed) + " does not reach it, see last column)"
+    if m.get("not_judged"):
+        status = "not judged: " + m["not_judged"][:160] + "…"
     if m.get("status_on_current_tree"):
         status = (("; ".join(caught) + " before; ") if caught else "") + "neutralised by a later repair of the underlying defect (see meta.json): the patched tree no longer breaks the property and the check is, correctly, silent"
     note = m.get("strengthened") or ""
